@@ -68,7 +68,7 @@ def context_of(F, n):
     for a in F.ancestors(n):
         if a["k"] == "IfStmt":
             side = "then" if child["id"] in {x["id"] for x in walk_nodes(F.nodes[a["then"]])} else "else"
-            ctx.append(("if", expr_str(strip(F.nodes[a["cond"]])), side))
+            ctx.append(("if", expr_str(strip(F.nodes[a["cond"]])), side, a.get("else") is not None))
         elif a["k"] in ("ForStmt", "WhileStmt"):
             if a.get("cond") is not None and child["id"] in {x["id"] for x in walk_nodes(F.nodes[a["body"]])}:
                 ctx.append(("loop", expr_str(strip(F.nodes[a["cond"]]))))
@@ -222,6 +222,19 @@ def pair_rule(ctx, rule, Fs, svar, Fw, cursor, init_size, what, strcpy_slack=Fal
                     # to cover everything the writer's loops can produce, which per-context comparison cannot establish
                     ctx.floor_failures.append("%s: %s returns early under `%s`, a case the writer %s does not distinguish; the size pass and "
                                               "the write pass cannot be paired, no verdict" % (rule, Fs.name, cx[-1][1][:50], Fw.name))
+    # a writer-side `if` (outside any further loop) that the size pass does not have: taken at its worst - the bytes it writes are
+    # added to the enclosing context the two passes share.  (A size-side-only condition is handled above; a loop on one side only
+    # cannot be paired.)
+    for table in (wadv, wwr, wtail):
+        for c in [c for c in list(table) if c not in sadv and c != ()]:
+            parent = c
+            dropped = []
+            while parent and parent not in sadv:
+                dropped.append(parent[-1])
+                parent = parent[:-1]
+            # only a plain `if` without else: the arms of an if / else chain exclude each other and must not be added up
+            if dropped and all(d[0] == "if" and d[2] == "then" and not d[3] for d in dropped) and (parent in sadv or parent == ()):
+                table[parent] = L.add(table.get(parent, {}), table.pop(c))
     contexts = set(sadv) | set(wadv) | set(wwr) | set(wtail)
     if not (set(wadv) | set(wwr)) <= set(sadv) | {()}:
         missing = sorted((set(wadv) | set(wwr)) - set(sadv) - {()}, key=str)
